@@ -207,6 +207,65 @@ def check_case(gs, s, res, tag, lanelets=None):
                       f"{'wrong-accept' if got else 'wrong-reject'}", f"goal {gs} state {s}: is_reached={got}, expected {exp}", case)
 
 
+# --------------------------------------------------------------------------- goals given by lanelets, obtained by reading a file
+
+# rectangles (x0, y0, x1, width); the goal refers to a subset of them, in the listed order
+FILE_LANELETS = {1: (-2.0, 0.0, 2.0, 2.0), 2: (2.0, 0.0, 5.0, 2.0), 3: (-3.0, -3.0, 0.0, 1.5), 4: (0.0, 2.0, 3.0, 1.0)}
+FILE_GOALS = [{1: [1, 2]}, {0: [3], 1: [2, 4]}, {1: [4, 1, 3]}, {0: [2]}]     # goal-state index -> lanelet ids (two goal states each)
+
+
+def file_goal_case(gi, fmt, res):
+    """planning problem whose goal positions are lanelet references, written and read back: the goal region of the problem that was
+    read must accept exactly the points of the referenced lanelets (goal state 0 additionally demands t in [2,5], goal state 1 t in [6,9])"""
+    import os, tempfile
+    from mc import spec, roundtrip
+    ref = FILE_GOALS[gi]
+    sp = spec.minimal()
+    sp["lanelets"] = [{"id": i, "left": [[x0, y0 + w], [x1, y0 + w]], "right": [[x0, y0], [x1, y0]]} for i, (x0, y0, x1, w) in FILE_LANELETS.items()]
+    gss = []
+    for k, tiv in ((0, (2, 5)), (1, (6, 9))):
+        if k in ref:
+            pos = ["group", [["poly", [[FILE_LANELETS[i][0], FILE_LANELETS[i][1]], [FILE_LANELETS[i][2], FILE_LANELETS[i][1]],
+                                      [FILE_LANELETS[i][2], FILE_LANELETS[i][1] + FILE_LANELETS[i][3]], [FILE_LANELETS[i][0], FILE_LANELETS[i][1] + FILE_LANELETS[i][3]]]]
+                             for i in ref[k]]]
+            gss.append(spec.goal_state(t=tiv, position=pos))
+        else:
+            gss.append(spec.goal_state(t=tiv, velocity=["iv", 0.0, 100.0]))
+    sp["pps"] = [spec.pp(100, goal_states=gss, lanelets={str(k): v for k, v in ref.items()}, x=0.0, y=1.0)]
+    case = {"k": "file-goal", "goal": gi, "fmt": fmt}
+    d = tempfile.mkdtemp(prefix="c08_")
+    try:
+        sc, pps = spec.build(sp)
+        fn = os.path.join(d, "g." + fmt)
+        roundtrip.write(sc, pps, fmt, fn, precision=4)
+        _, pps2 = roundtrip.read(fmt, fn)
+        goal = list(pps2.planning_problem_dict.values())[0].goal
+    except Exception as e:
+        res.violation(f"C08|file-goal:{fmt}|build-write-read|raises:{type(e).__name__}", repr(e), case)
+        return
+    finally:
+        import shutil
+        shutil.rmtree(d, ignore_errors=True)
+    for p in grid_points():
+        for t in (3, 7):
+            k = 0 if t == 3 else 1
+            res.evals += 1; res.transitions += 1
+            if k in ref:
+                exp = shape_contains(("lanelets", [FILE_LANELETS[i] for i in ref[k]]), p)
+            else:
+                exp = True
+            try:
+                got = goal.is_reached(mk_state(dict(BASE_S, pos=p, t=t)))
+            except Exception as e:
+                res.violation(f"C08|file-goal:{fmt}|is_reached|raises:{type(e).__name__}", f"{case} p={p} t={t}: {e!r}", dict(case, point=list(p), t=t))
+                return
+            res.nontrivial += 1
+            res.outcomes[f"file-goal:reached={bool(got)}"] += 1
+            if bool(got) != exp:
+                res.violation(f"C08|file-goal:{fmt}|position:lanelets|{'wrong-accept' if got else 'wrong-reject'}",
+                              f"{case} goal lanelets {ref}: point {p} at t={t}: is_reached={got}, expected {exp}", dict(case, point=list(p), t=t))
+
+
 # --------------------------------------------------------------------------- spaces
 
 ORI_STARTS = [-TWO_PI, -math.pi - 0.3, -math.pi / 2, -0.2, 0.0, 1.0, math.pi - 0.2]
@@ -266,6 +325,9 @@ def units(tier):
     for i in range(len(SHAPES)):
         u.append({"k": "pos", "i": i})
     u += [{"k": "vel"}, {"k": "time"}, {"k": "conj"}, {"k": "disj"}, {"k": "pm"}, {"k": "reached"}]
+    for gi in range(len(FILE_GOALS)):
+        for fmt in ("xml", "pb"):
+            u.append({"k": "file-goal", "goal": gi, "fmt": fmt})
     return u
 
 
@@ -322,6 +384,10 @@ def run_unit(unit, tier):
                 check_case([dict(BASE_G, pos=sh)], dict(BASE_S, cls=cls, pos=p), res, "position:" + sh[0], lan)
         res.states += 1
         res.sample({"k": "pos", "shape": sh}, 1)
+    elif k == "file-goal":
+        file_goal_case(unit["goal"], unit["fmt"], res)
+        res.states += 1
+        res.sample(dict(unit, lanelets=FILE_GOALS[unit["goal"]]), 1)
     elif k == "vel":
         for iv in VELS:
             for v in (-3, -2, -2.0, 0, 0.0, 2.5, 3, 3.0, 5, 5.0, 5.1, 5.000000001, -2.0000001):
@@ -439,6 +505,8 @@ def replay(case):
         if lan:
             lan = {int(k): v for k, v in lan.items()}
         check_case(gs, s, res, case["tag"], lan)
+    elif case["k"] == "file-goal":
+        file_goal_case(case["goal"], case["fmt"], res)
     else:
         _reached(res)
     return [(s, d) for s, d, _ in res.violations]
